@@ -15,7 +15,7 @@ RULE = ("random populated topologies (3..12 real nodes, >=2 nodes on most levels
         "frame, ACK packets, relayed frames). Non-trivial: a multicast frame crossed the air and "
         "quiescence was reached; distinct = (sender class, level argument, length class, relay "
         "pattern, multicast-off pattern, profile class).")
-RULE += (" Later rounds added: multicast_level overrides, multicasts arriving while a member waits for a NETWORK_ACK, the reverse (a member's failing unicast starts right after the multicast reached its radio), a relay whose application stops reading, a multicast after a fragmented unicast that failed outright, nodes whose address was assigned more than once (the same again, or another level first) before the traffic, a multicast to the level of a node that has just completed an acknowledged unicast over two or more hops, nodes that switched multicasting off and on again at run time.")
+RULE += (" Later rounds added: multicast_level overrides, multicasts arriving while a member waits for a NETWORK_ACK, the reverse (a member's failing unicast starts right after the multicast reached its radio), a relay whose application stops reading, a multicast after a fragmented unicast that failed outright, nodes whose address was assigned more than once (the same again, or another level first) before the traffic, a multicast to the level of a node that has just completed an acknowledged unicast over two or more hops, nodes that switched multicasting off and on again at run time; one node with a multicast and unicasts waiting together in its RX FIFO in every order (two multicast senders using the same frame id).")
 REQUIRED = {"level_members_once": 150, "other_levels_clean": 150, "unacknowledged": 150,
             "relay_rebroadcast": 20, "multicast_off_not_listening": 30}
 BUDGET = {"quick": 480, "thorough": 900}
@@ -43,6 +43,11 @@ def populated(rng, nmin=3, nmax=12):
 
 
 def gen_cases(ctx):
+    yield from gen_fifo_pairs(ctx)
+    yield from _gen_cases(ctx)
+
+
+def _gen_cases(ctx):
     rng = ctx.sub_rng("c14")
     rng2 = ctx.sub_rng("c14b")  # later additions draw from their own stream
     ntop = 160 if ctx.tier == "quick" else 8000
@@ -176,7 +181,98 @@ def gen_cases(ctx):
                "seed": rng.getrandbits(30)}
 
 
+def gen_fifo_pairs(ctx):
+    """the receiving half on one node: a multicast frame (pipe 0) and unicast frames from the parent
+    / a child (pipes 1..5) wait TOGETHER in the radio's RX FIFO when update() runs - in every order;
+    the multicast is queued exactly once (and re-broadcast once by a relaying node), whatever else
+    was waiting; multicasts of two senders that use the same frame id and type are both queued"""
+    for a in (0o1, 0o3, 0o12, 0o45, 0o123, 0o2341):
+        for relay in (False, True):
+            for order in ("mu", "um", "mum", "umu", "mm", "umm", "mmu"):
+                for upipe in (1, 3, 5):
+                    yield {"part": "fifo_pairs", "addr": a, "relay": relay, "order": order, "upipe": upipe,
+                           "seed": a * 7 + upipe, "twin_ids": order.count("m") == 2 and upipe != 3}
+
+
+def run_fifo_pairs(ctx, case):
+    from vsim.radio import Phantom
+    from vsim.rig import Rig, repo
+    m = repo()
+    rig = Rig(seed=case["seed"])
+    try:
+        rig.air.promisc = Phantom()
+        radio = rig.radio("n")
+        me = case["addr"]
+        o = rig.driver(radio, cls=m["rf24_network"].RF24Network, node_address=me)
+        if case["relay"]:
+            o.multicast_relay = True
+        lvl = net_ref.level(me)
+        par = net_ref.parent(me)
+        others = [x for x in (0o2, 0o4, 0o5, 0o14, 0o24) if x != me]
+        want_mc, want_uni = [], []
+        nm = nu = 0
+        for ch in case["order"]:
+            if ch == "m":
+                # (separate devices count their frame ids separately: two senders may use the same id)
+                fid = 500 if case["twin_ids"] else 500 + nm
+                body = b"mc-%d-%d" % (nm, me)
+                radio.inject_rx(0, net_ref.pack_header(others[nm], 0o100, fid, 9, 0) + body)
+                want_mc.append((others[nm], fid, 9, body))
+                nm += 1
+            else:
+                body = b"uni-%d" % nu
+                radio.inject_rx(case["upipe"], net_ref.pack_header(par, me, 800 + nu, 4, 0) + body)
+                want_uni.append((par, 800 + nu, 4, body))
+                nu += 1
+        air0 = len(rig.air.log)
+        rig.node.deadline = rig.node.t + 2000 * W.MS
+        try:
+            for _ in range(6):
+                o.update()
+                if not radio.rx_fifo:
+                    break
+        except W.VirtualDeadline:
+            ctx.violation("update-no-return", "update() with %r waiting did not return" % case["order"], case)
+            return
+        finally:
+            rig.node.deadline = None
+        rig.node.idle(5 * W.MS)
+        got = []
+        while o.available():
+            f = o.read()
+            got.append((f.header.from_node, f.header.frame_id, f.header.message_type, bytes(f.message)))
+        ctx.clause("waiting_together_in_the_rx_fifo")
+        exp = []
+        mi = ui = 0
+        for ch in case["order"]:
+            if ch == "m":
+                exp.append(want_mc[mi]); mi += 1
+            else:
+                exp.append(want_uni[ui]); ui += 1
+        if got != exp:
+            ctx.violation("level-member-copies/waiting-with-other-frames", "node %s (relay %s) found %r waiting in its RX FIFO "
+                          "(m = multicast on pipe 0, u = unicast on pipe %d%s): its application read %r, expected %r"
+                          % (oct(me), case["relay"], case["order"], case["upipe"],
+                             ", both multicasts carrying frame id 500" if case["twin_ids"] else "", got, exp), case)
+            return
+        onair = [bytes(p.payload) for p in rig.air.log[air0:] if p.kind == "data" and p.src is radio and p.attempt == 0]
+        want_air = [net_ref.pack_header(x[0], 0o100, x[1], x[2], 0) + x[3] for x in want_mc] if case["relay"] and 1 <= lvl <= 3 else []
+        if not 1 <= lvl <= 3:
+            onair = want_air  # (what a relaying node of level 0 or 4 does is not specified)
+        else:
+            ctx.clause("relay_rebroadcast")
+        if onair != want_air:
+            ctx.violation("relay-rebroadcast/waiting-with-other-frames", "node %s (relay %s, level %d) with %r waiting re-broadcast %d "
+                          "frames, expected %d" % (oct(me), case["relay"], lvl, case["order"], len(onair), len(want_air)), case)
+            return
+        ctx.nontrivial(("fifo_pairs", me, case["relay"], case["order"], case["upipe"]))
+    finally:
+        rig.close()
+
+
 def run_case(ctx, case):
+    if case.get("part") == "fifo_pairs":
+        return run_fifo_pairs(ctx, case)
     net = N.Net(seed=case["seed"])
     try:
         _run(ctx, case, net)
